@@ -464,6 +464,93 @@ fn elias_fano_grid(ctx: &mut Ctx) {
     }
 }
 
+/// Growing operations on vectors whose backing store has spare capacity or spare words: every
+/// (way of obtaining the slack, amount, growing operation, target) over boundary sizes. All arguments
+/// are in-domain; what varies is the relation between length, backing words and capacity.
+fn growth_with_slack(ctx: &mut Ctx) {
+    let sizes = [0usize, 1, 63, 64, 65, 127, 128, 129, 200, 1000];
+    for &c in &sizes {
+        for how in 0..4 {
+            for &m in &sizes {
+                for op in 0..4 {
+                    let desc = || format!("{} then {} (c={c}, m={m})", ["with_capacity(c)", "c pushes", "new(c) then clear-by-resize(0)", "from_raw_parts with 3 spare words"][how], ["resize(m,true)", "m pushes", "extend(m bits)", "resize(m,false) then set(m-1)"][op]);
+                    probe(ctx, "BitVec::<growth with slack>", desc, || {
+                        let mut b: BitVec = match how {
+                            0 => BitVec::with_capacity(c),
+                            1 => {
+                                let mut b = BitVec::new(0);
+                                for i in 0..c {
+                                    b.push(i % 3 == 0);
+                                }
+                                b
+                            }
+                            2 => {
+                                let mut b = BitVec::with_value(c, true);
+                                b.resize(0, false);
+                                b
+                            }
+                            _ => unsafe { BitVec::from_raw_parts(vec![usize::MAX; c.div_ceil(64) + 3], c) },
+                        };
+                        match op {
+                            0 => b.resize(m, true),
+                            1 => {
+                                for i in 0..m {
+                                    b.push(i % 2 == 0);
+                                }
+                            }
+                            2 => b.extend((0..m).map(|i| i % 5 == 0)),
+                            _ => {
+                                b.resize(m, false);
+                                if m > 0 {
+                                    b.set(m - 1, true);
+                                }
+                            }
+                        }
+                        (b.len(), b.count_ones(), b.iter_ones().last())
+                    });
+                    for w in [0usize, 1, 7, 13, 64] {
+                        probe(ctx, "BitFieldVec::<growth with slack>", || format!("width={w} {}", desc()), || {
+                            let mut b: BitFieldVec<usize> = match how {
+                                0 => BitFieldVec::with_capacity(w, c),
+                                1 => {
+                                    let mut b = BitFieldVec::new(w, 0);
+                                    for _ in 0..c {
+                                        b.push(0);
+                                    }
+                                    b
+                                }
+                                2 => {
+                                    let mut b = BitFieldVec::new(w, c);
+                                    b.resize(0, 0);
+                                    b
+                                }
+                                _ => unsafe { BitFieldVec::from_raw_parts(vec![usize::MAX; (c * w).div_ceil(64) + 3], w, c) },
+                            };
+                            let top = if w == 0 { 0 } else { usize::MAX >> (64 - w) };
+                            match op {
+                                0 => b.resize(m, top),
+                                1 => {
+                                    for _ in 0..m {
+                                        b.push(top);
+                                    }
+                                }
+                                2 => b.extend((0..m).map(|_| top)),
+                                _ => {
+                                    b.resize(m, 0);
+                                    if m > 0 {
+                                        b.set(m - 1, top);
+                                    }
+                                }
+                            }
+                            (b.len(), b.iter().filter(|&x| x == top).count())
+                        });
+                    }
+                }
+            }
+        }
+    }
+}
+
 fn rear_coded(ctx: &mut Ctx) {
     let lists: Vec<(String, Vec<String>)> = vec![
         ("empty".into(), vec![]),
@@ -644,6 +731,7 @@ fn main() {
     atomic_bit_field_vectors!(&mut ctx, u8, &[0usize, 3, 8]);
     atomic_bit_field_vectors!(&mut ctx, usize, &[0usize, 13, 64]);
     slices(&mut ctx);
+    growth_with_slack(&mut ctx);
     elias_fano(&mut ctx);
     elias_fano_grid(&mut ctx);
     rear_coded(&mut ctx);
